@@ -98,6 +98,19 @@ Theorem c15_kept_as_text :
 Proof. exact jclassify_invalid. Qed.
 Print Assumptions c15_kept_as_text.
 
+(* ... and at the level of serde_json::Value: the data of a frame, printed (serde_json::to_string) and read back
+   (serde_json::from_str), is the same Value — data is canonical (keys strictly ascending, numbers in the printer's
+   spelling).  Second hypothesis on the abstract float printer: its output is a fixpoint of the number normalisation
+   ("100.0" is re-spelled "100.0") *)
+Theorem c15_value_round_trip :
+  forall (A : absfns),
+  (forall t t', a_fmt_float A t = Some t' -> num_ok t' = true) ->
+  (forall t t', a_fmt_float A t = Some t' -> norm_num A t' = Some t') ->
+  forall (ev : option str) (raw : str) (v : json) (errs rerrs : list str) (dl : option str),
+  jclassify A ev raw = CEvent v errs rerrs dl -> parse_value_of A (print v) = Some v.
+Proof. exact value_round_trip. Qed.
+Print Assumptions c15_value_round_trip.
+
 (* the parser only builds number tokens it has checked, so every parsed payload prints to JSON *)
 Theorem c15_parsed_numbers_ok :
   forall (txt : str) (j : json), JsonParse.parse txt = Some j -> nums_ok j = true.
@@ -250,6 +263,8 @@ Proof. exact demo2_nontrivial. Qed.
 
 Example c15_demoA_fmt_ok : forall t t', a_fmt_float demoA t = Some t' -> num_ok t' = true.
 Proof. exact demoA_fmt_ok. Qed.
+Example c15_demoA_fmt_idem : forall t t', a_fmt_float demoA t = Some t' -> norm_num demoA t' = Some t'.
+Proof. exact demoA_fmt_idem. Qed.
 
 (* the no-overflow hypothesis is satisfiable at the very top of the range (6 frames from 2^64 - 7), and one more wraps *)
 Example c15_seq_top_of_range :
